@@ -82,12 +82,21 @@ impl<'a> MkErr for Simple<'a, u8> {
 }
 
 // ------------------------------------------------------------------------------------------------------
+// NOTE on representation. Both harness error types are single packed scalars (`u64` / `u128`). Measured: reading
+// one field of a 3-field struct error (`{u8, usize, usize}`, padding bytes) out of `ParseResult::errors()` costs
+// CBMC 80-100 s and 5 GB, and > 15 GB for two errors, because every error travels through three heap `Vec`s inside
+// chumsky (Emitter -> Located secondary list -> collected result) and padded structs are copied byte-wise; the
+// same content as one scalar costs 7-14 s. This is a property of the harness' error type only.
 
+/// id (bits 0..8) | start (8..24) | end (24..40)
 #[derive(Copy, Clone, PartialEq, Eq, Debug)]
-pub struct TagErr {
-    pub id: u8,
-    pub start: usize,
-    pub end: usize,
+pub struct TagErr(pub u64);
+
+impl TagErr {
+    #[inline(always)]
+    pub fn new(id: u8, span: SimpleSpan) -> Self {
+        TagErr((id as u64) | ((span.start as u64 & 0xffff) << 8) | ((span.end as u64 & 0xffff) << 24))
+    }
 }
 
 impl<'a, I: Input<'a, Span = SimpleSpan>> Error<'a, I> for TagErr {}
@@ -99,25 +108,25 @@ impl<'a, I: Input<'a, Span = SimpleSpan>, L> LabelError<'a, I, L> for TagErr {
         _found: Option<MaybeRef<'a, I::Token>>,
         span: SimpleSpan,
     ) -> Self {
-        TagErr { id: 0xEE, start: span.start, end: span.end }
+        TagErr::new(0xEE, span)
     }
 }
 
 impl MkErr for TagErr {
     fn user(span: SimpleSpan) -> Self {
-        TagErr { id: 0xDD, start: span.start, end: span.end }
+        TagErr::new(0xDD, span)
     }
     fn emitted(id: u8, span: SimpleSpan) -> Self {
-        TagErr { id, start: span.start, end: span.end }
+        TagErr::new(id, span)
     }
     fn start(&self) -> usize {
-        self.start
+        ((self.0 >> 8) & 0xffff) as usize
     }
     fn end(&self) -> usize {
-        self.end
+        ((self.0 >> 24) & 0xffff) as usize
     }
     fn id(&self) -> u8 {
-        self.id
+        self.0 as u8
     }
 }
 
@@ -129,40 +138,85 @@ pub struct Lbl(pub u8);
 
 pub const X_LABEL0: u32 = 1 << 20;
 
+/// Packed layout (u128):
+///   0..8 start | 8..16 end | 16..24 found token | 24 found present | 25 custom (made by user code) |
+///   26..58 expected set (bits 0..15: token value & 15; 16 any; 17 something else; 18 end of input; 20..28 labels) |
+///   58..60 number of `in_context` calls (saturating at 3) | 60..64 last context label |
+///   64..72 last context span start | 72..80 last context span end | 80..88 marker (set by map_err closures) |
+///   88..96 id (validate id, 0xEE parser-made, 0xDD user)
 #[derive(Copy, Clone, PartialEq, Eq, Debug)]
-pub struct BitErr {
-    pub start: usize,
-    pub end: usize,
-    pub found: Option<u8>,
-    /// bits 0..15: token (value & 15) expected; 16 any; 17 something else; 18 end; 20.. labels
-    pub exp: u32,
-    /// produced by user code (try_map / custom)
-    pub custom: bool,
-    /// number of `in_context` calls, and the last one
-    pub ctx_n: u8,
-    pub ctx_label: u8,
-    pub ctx_start: usize,
-    pub ctx_end: usize,
-    /// set by the `map_err` closures of the C17 harnesses
-    pub marker: u8,
-    pub id: u8,
-}
+pub struct BitErr(pub u128);
+
+const S_END: u32 = 8;
+const S_FOUND: u32 = 16;
+const S_FOUNDP: u32 = 24;
+const S_CUSTOM: u32 = 25;
+const S_EXP: u32 = 26;
+const S_CTXN: u32 = 58;
+const S_CTXL: u32 = 60;
+const S_CTXS: u32 = 64;
+const S_CTXE: u32 = 72;
+const S_MARK: u32 = 80;
+const S_ID: u32 = 88;
+/// what `merge` unions: expected set, custom flag, marker
+const MERGE_MASK: u128 = ((0xffff_ffffu128) << S_EXP) | (1u128 << S_CUSTOM) | (0xffu128 << S_MARK);
 
 impl BitErr {
+    #[inline(always)]
     pub fn blank(span: SimpleSpan) -> Self {
-        BitErr {
-            start: span.start,
-            end: span.end,
-            found: None,
-            exp: 0,
-            custom: false,
-            ctx_n: 0,
-            ctx_label: 0,
-            ctx_start: 0,
-            ctx_end: 0,
-            marker: 0,
-            id: 0xEE,
+        BitErr((span.start as u128 & 0xff) | ((span.end as u128 & 0xff) << S_END) | (0xEEu128 << S_ID))
+    }
+    #[inline(always)]
+    pub fn found(&self) -> Option<u8> {
+        if (self.0 >> S_FOUNDP) & 1 == 1 {
+            Some((self.0 >> S_FOUND) as u8)
+        } else {
+            None
         }
+    }
+    #[inline(always)]
+    pub fn with_found(mut self, f: Option<u8>) -> Self {
+        if let Some(t) = f {
+            self.0 |= ((t as u128) << S_FOUND) | (1u128 << S_FOUNDP);
+        }
+        self
+    }
+    #[inline(always)]
+    pub fn exp(&self) -> u32 {
+        (self.0 >> S_EXP) as u32
+    }
+    #[inline(always)]
+    pub fn set_exp(&mut self, e: u32) {
+        self.0 = (self.0 & !((0xffff_ffffu128) << S_EXP)) | ((e as u128) << S_EXP);
+    }
+    #[inline(always)]
+    pub fn custom(&self) -> bool {
+        (self.0 >> S_CUSTOM) & 1 == 1
+    }
+    #[inline(always)]
+    pub fn ctx_n(&self) -> u8 {
+        ((self.0 >> S_CTXN) & 3) as u8
+    }
+    #[inline(always)]
+    pub fn ctx_label(&self) -> u8 {
+        ((self.0 >> S_CTXL) & 0xf) as u8
+    }
+    #[inline(always)]
+    pub fn ctx_start(&self) -> usize {
+        ((self.0 >> S_CTXS) & 0xff) as usize
+    }
+    #[inline(always)]
+    pub fn ctx_end(&self) -> usize {
+        ((self.0 >> S_CTXE) & 0xff) as usize
+    }
+    #[inline(always)]
+    pub fn marker(&self) -> u8 {
+        (self.0 >> S_MARK) as u8
+    }
+    #[inline(always)]
+    pub fn with_marker(mut self, m: u8) -> Self {
+        self.0 |= (m as u128) << S_MARK;
+        self
     }
 }
 
@@ -170,9 +224,7 @@ impl<'a, I: Input<'a, Token = u8, Span = SimpleSpan>> Error<'a, I> for BitErr {
     #[inline]
     fn merge(mut self, other: Self) -> Self {
         // exact set union; everything positional is kept from `self` (as Rich does)
-        self.exp |= other.exp;
-        self.custom |= other.custom;
-        self.marker |= other.marker;
+        self.0 |= other.0 & MERGE_MASK;
         self
     }
 }
@@ -196,9 +248,8 @@ impl<'a, I: Input<'a, Token = u8, Span = SimpleSpan>> LabelError<'a, I, DefaultE
                 _ => 0,
             };
         }
-        let mut e = BitErr::blank(span);
-        e.exp = exp;
-        e.found = found.map(|f| *f);
+        let mut e = BitErr::blank(span).with_found(found.map(|f| *f));
+        e.set_exp(exp);
         e
     }
 }
@@ -214,43 +265,45 @@ impl<'a, I: Input<'a, Token = u8, Span = SimpleSpan>> LabelError<'a, I, Lbl> for
         for l in expected {
             exp |= X_LABEL0 << (l.0 & 7);
         }
-        let mut e = BitErr::blank(span);
-        e.exp = exp;
-        e.found = found.map(|f| *f);
+        let mut e = BitErr::blank(span).with_found(found.map(|f| *f));
+        e.set_exp(exp);
         e
     }
     #[inline]
     fn label_with(&mut self, label: Lbl) {
-        self.exp = X_LABEL0 << (label.0 & 7);
+        self.set_exp(X_LABEL0 << (label.0 & 7));
     }
     #[inline]
     fn in_context(&mut self, label: Lbl, span: SimpleSpan) {
-        self.ctx_n = self.ctx_n.wrapping_add(1);
-        self.ctx_label = label.0;
-        self.ctx_start = span.start;
-        self.ctx_end = span.end;
+        let n = self.ctx_n();
+        let n2 = if n < 3 { n + 1 } else { 3 };
+        let clear = !((3u128 << S_CTXN) | (0xfu128 << S_CTXL) | (0xffu128 << S_CTXS) | (0xffu128 << S_CTXE));
+        self.0 = (self.0 & clear)
+            | ((n2 as u128) << S_CTXN)
+            | (((label.0 & 0xf) as u128) << S_CTXL)
+            | ((span.start as u128 & 0xff) << S_CTXS)
+            | ((span.end as u128 & 0xff) << S_CTXE);
     }
 }
 
 impl MkErr for BitErr {
     fn user(span: SimpleSpan) -> Self {
         let mut e = BitErr::blank(span);
-        e.custom = true;
-        e.id = 0xDD;
+        e.0 = (e.0 & !(0xffu128 << S_ID)) | (0xDDu128 << S_ID) | (1u128 << S_CUSTOM);
         e
     }
     fn emitted(id: u8, span: SimpleSpan) -> Self {
         let mut e = BitErr::blank(span);
-        e.id = id;
+        e.0 = (e.0 & !(0xffu128 << S_ID)) | ((id as u128) << S_ID);
         e
     }
     fn start(&self) -> usize {
-        self.start
+        (self.0 & 0xff) as usize
     }
     fn end(&self) -> usize {
-        self.end
+        ((self.0 >> S_END) & 0xff) as usize
     }
     fn id(&self) -> u8 {
-        self.id
+        (self.0 >> S_ID) as u8
     }
 }
